@@ -125,6 +125,10 @@ def fresh_name(rng, used_fn, used_wire, wild_p=0.25):
     raise RuntimeError("name space exhausted")
 
 
+HELPER_LOCAL_TYPES = {"code_id": P("u64"), "label": P("String"), "admin": P("Option", P("String")), "contract_addr": P("String"), "contract": P("String"),
+                      "addr": P("Addr"), "sender": P("Addr"), "msg": P("Binary"), "salt": P("Binary")}
+
+
 def gen_args(rng, maxn=3):
     if rng.random() < (0.06 if maxn >= 3 else 0.12):
         # many same-typed parameters: positional mix-ups (field10 vs field2 ...) only show here
@@ -138,6 +142,10 @@ def gen_args(rng, maxn=3):
     out = []
     for nm in names:
         ty = rand_vty(rng)
+        # a like-named local of a generated helper shadows silently only when the types agree (otherwise the program stops
+        # compiling, which is visible at once): half of the time such a name gets the type the helpers give their local
+        if nm in HELPER_LOCAL_TYPES and rng.random() < 0.5:
+            ty = HELPER_LOCAL_TYPES[nm]
         a = {"name": nm, "ty": ty}
         if rng.random() < 0.15 and "t" not in ty and ty["p"][0][0] != "Addr":
             a["attrs"] = ["serde(default)"]
